@@ -122,7 +122,7 @@ int get_opcode_offset(struct instr *instrc) {
   return NONE;
 }
 
-void get_reg_str(char *opd_str, char *reg) {
+int get_reg_str(char *opd_str, char *reg) {
 
   int j = 0;
   size_t len = strlen(opd_str);
@@ -143,9 +143,15 @@ void get_reg_str(char *opd_str, char *reg) {
       break;
     if (j < 1 && IN_RANGE(opd_str[i], 'a', 'z'))
       reg[j++] = opd_str[i];
-    if (j > 4)
+    if (j > 4) {
+      // no register name is longer than this: fail instead of truncating
+      if (IN_RANGE(opd_str[i + 1], 'a', 'z') ||
+          IN_RANGE(opd_str[i + 1], '0', '9'))
+        return EXIT_FAILURE;
       break;
+    }
   }
+  return EXIT_SUCCESS;
 }
 
 static unsigned int check_sib_disp(struct instr *instruc, char scale,
